@@ -27,7 +27,8 @@ Translation scheme (what the trusted reading of the generated file relies on):
  * a `&mut self` method returns the new `self`;
  * functions named in EXTERN for a target are not inlined there: the generated definition takes them as arguments.
 Anything else (match, closures, while, strings, generics, traits objects, ...) is outside the subset: if a TARGET or
-something it calls no longer fits, the script prints where and why and exits 1 (a broken tie, DESIGN.md 2.3).
+something it calls no longer fits, the script prints `FAILED family=<family> fn=<function>: <where and why>`, leaves that
+function out of the generated file (so the tie lemmas about it no longer build) and exits 1 (a broken tie, DESIGN.md 2.3).
 
 Honours VERIF_REPO / VERIF_COQ_DIR; rewrites its output only when the content changes."""
 import os, sys
@@ -45,18 +46,19 @@ FILES = ["layout21raw/src/data.rs", "layout21raw/src/geom.rs", "layout21raw/src/
 ALIAS_ONLY = {"layout21raw/src/data.rs"}
 # the functions that MUST translate, by family (a family = one tie-proof file)
 TARGETS = [
-    # layout21raw/src/geom.rs: transforms (C12, C06, C07)
-    "matmul", "matvec", "Transform::identity", "Transform::translate", "Transform::rotate", "Transform::reflect_vert",
-    "Transform::from_instance", "Transform::cascade", "Point::transform", "sin_cos_degrees",
-    "Rect::transform",
-    # layout21raw/src/geom.rs, bbox.rs: containment (C13)
-    "Point::new", "Rect::contains", "Path::contains", "Polygon::contains",
-    "BoundBox::from_point", "BoundBox::from_points", "BoundBox::empty", "BoundBox::is_empty", "BoundBox::contains",
-    "BoundBox::expand", "BoundBox::size", "BoundBox::center", "BoundBox::intersection", "BoundBox::union",
-    "Point::bbox", "Point::union", "Point::intersection", "Rect::bbox", "Vec_Point::bbox", "Rect::center",
-    "Point::shift", "Point::scale", "Rect::shift",
-    # gds21/src/data.rs
-    "GdsFloat64::decode",
+    # family "transform" (C12, C06, C07): layout21raw/src/geom.rs
+    ("transform", "matmul"), ("transform", "matvec"), ("transform", "Transform::identity"), ("transform", "Transform::translate"),
+    ("transform", "Transform::rotate"), ("transform", "Transform::reflect_vert"), ("transform", "Transform::from_instance"),
+    ("transform", "Transform::cascade"), ("transform", "Point::transform"), ("transform", "sin_cos_degrees"),
+    ("transform", "Rect::transform"),
+    # family "contains" (C13): layout21raw/src/geom.rs, bbox.rs
+    ("contains", "Point::new"), ("contains", "Rect::contains"), ("contains", "Path::contains"), ("contains", "Polygon::contains"),
+    ("contains", "BoundBox::empty"), ("contains", "BoundBox::contains"), ("contains", "BoundBox::union"), ("contains", "Point::bbox"),
+    ("contains", "Vec_Point::bbox"),
+    # family "raw" (label placement of the GDSII export, Raw/RawGdsExport.v)
+    ("raw", "Rect::center"), ("raw", "BoundBox::center"), ("raw", "Vec_Point::bbox"),
+    # family "gds": gds21/src/data.rs
+    ("gds", "GdsFloat64::decode"),
 ]
 # callee kept abstract (an argument of the generated definition) in the given target
 EXTERN = {"Transform::rotate": ["sin_cos_degrees"], "Transform::from_instance": ["sin_cos_degrees"]}
@@ -465,9 +467,13 @@ class FnGen:
                 m = {f: n for (f, _), n in zip(written, ns)}
                 return Val("P", "(mk_g%s %s)" % (name, " ".join(m[f] for f, _ in decl)), ("struct", name))
             return self.seq([v for _, v in written], build)
-        if k == "block":
-            return self.stmts(e.stmts, env, KValue(self, expect))
-        if k == "if":
+        if k in ("block", "if"):
+            # a block used as a VALUE: what it assigns would not flow out of it in this translation
+            esc = [r for r in assigned_roots(e, []) if r in env and r not in let_names(e, set())]
+            if esc:
+                self.err(e, "assignment to %s inside a block that is used as a value" % ", ".join(sorted(set(esc))))
+            if k == "block":
+                return self.stmts(e.stmts, env, KValue(self, expect))
             return self.stmts([N("exprstmt", e.line, e=e, semi=False)], env, KValue(self, expect))
         if k == "macro":
             if e.name in ("unimplemented", "unreachable", "todo", "panic"):
@@ -1048,13 +1054,22 @@ class Translator:
         return out
 
 def main():
+    failed = []
     try:
         tr = Translator()
-        for qn in TARGETS:
+    except Unsupported as ex:
+        return False, "translate_rust_kernels: cannot read the sources:\n  %s" % ex
+    for fam, qn in TARGETS:
+        try:
             tr.need(qn)
+        except Unsupported as ex:
+            # the function (or one it calls) is left out of the generated file: the tie lemmas about it no longer build
+            tr.inprogress.clear()
+            failed.append((fam, qn, str(ex)))
+    try:
         structs = tr.struct_defs()
     except Unsupported as ex:
-        return False, "translate_rust_kernels: a function to be translated no longer fits the supported subset of Rust:\n  %s" % ex
+        return False, "translate_rust_kernels: %s" % ex
     L = ["(** GENERATED by tools/translate_rust_kernels.py from %s -- do not edit." % ", ".join("/repo/" + f for f in FILES if f not in ALIAS_ONLY),
          "    One definition per Rust function (g_<Type>_<fn>), one record per struct (g<Struct>), parametric in the",
          "    primitive operations [kops M F I] of Base/KernelOps.v. The translation scheme is described there and in",
@@ -1062,8 +1077,7 @@ def main():
          "From Coq Require Import ZArith Bool List.",
          "From L21 Require Import Base.KernelOps.",
          "",
-         "Definition kernels_translated : list (list nat) := nil.   (* placeholder so that the file is never empty *)",
-         ""]
+         ]
     L += structs
     L += ["Section Kernels.",
           "Context {M : Type -> Type} {F I : Type} (ops : kops M F I).",
@@ -1073,12 +1087,19 @@ def main():
     L += ["End Kernels.", ""]
     txt = "\n".join(L)
     old = open(OUT).read() if os.path.exists(OUT) else None
+    n = "%d functions, %d structs" % (len(tr.order), len(structs))
     if old != txt:
         os.makedirs(os.path.dirname(OUT), exist_ok=True)
         with open(OUT, "w") as f:
             f.write(txt)
-        return True, "rewrote %s (%d functions, %d structs)" % (OUT, len(tr.order), len(structs))
-    return True, "unchanged %s (%d functions, %d structs)" % (OUT, len(tr.order), len(structs))
+        msg = "rewrote %s (%s)" % (OUT, n)
+    else:
+        msg = "unchanged %s (%s)" % (OUT, n)
+    if failed:
+        msg += "\ntranslate_rust_kernels: these functions no longer fit the supported subset of Rust (tools/rustsubset.py) and are left out:\n"
+        msg += "\n".join("FAILED family=%s fn=%s: %s" % f for f in failed)
+        return False, msg
+    return True, msg
 
 if __name__ == "__main__":
     ok, msg = main()
